@@ -445,19 +445,21 @@ def run(ctx):
         add_sall(cas, passes, "server-all-rnd")
 
     # ---------------- composite serviceAll (client) ----------------
-    def add_call(passes, kind):
-        obs, got = harness.run_client_all(passes)
+    def add_call(passes, kind, entry="serviceAll"):
+        obs, got = harness.run_client_all(passes, entry)
         ctx.case({"side": "client-all", "passes": [[list(r[1]) if r[0] == 'D' else r[0] for r in o] for o in passes]},
                  nontrivial=any(any(r[0] == 'D' for r in o) and any(r[0] == 'X' for r in o) for o in passes), kind=kind)
         cases.append(("(trace_crx crx_init %s)" % clist([c_rorc(o) for o in passes], "(list rres)"),
                       clist([cz(x) for x in flat_client_rx([('r',) + tuple(o) if not (o and isinstance(o[0], str)) else o for o in obs])], "Z")))
-        metas.append(("client-all", passes, (obs, got), None))
+        metas.append(("client-all", (entry, passes), (obs, got), None))
 
     for n in range(0, ctx.n(3, 4) + 1):
         for o in itertools.product(ralpha, repeat=n):
             add_call([list(o), [('D', b"z")]], "client-all-exh")
+            add_call([list(o), [('D', b"z")]], "client-allrx-exh", entry="serviceAllRx")
     for _ in range(ctx.n(150, 1500)):
-        add_call([rnd_rorc(rng, pclose=0.15) for _ in range(rng.randint(1, 5))], "client-all-rnd")
+        add_call([rnd_rorc(rng, pclose=0.15) for _ in range(rng.randint(1, 5))], "client-all-rnd",
+                 entry=rng.choice(["serviceAll", "serviceAllRx"]))
 
     bad = ctx.coq_cases(HEADER, "l_eqb", cases, name="c36")
     for i in bad[:6]:
@@ -497,8 +499,13 @@ def run(ctx):
                 if o_ and isinstance(o_[-1][0], str):
                     why = "internal error %s" % o_[-1][0]
                 elif o_:
-                    why = prop_rx(got, o_[-1][0], o_[-1][1])
-                key, thm = "client-all", "C36.Props.client_rx_partition"
+                    # bytes handed out by the socket = bytes delivered as packets (nothing may stay
+                    # unparsed in .rxbs at the end of a pass: the base parser takes the whole buffer)
+                    why = prop_rx(got, o_[-1][0], b"")
+                    if why:
+                        why = "client %s: %d bytes read from the socket, %d delivered as packets, %d left in .rxbs" % (
+                            inp[0], len(got), len(b"".join(o_[-1][0])), len(o_[-1][1]))
+                key, thm = "client-all", "C36.Props.client_rx_partition / client_rx_all_delivered"
             elif side == "client-rx":
                 if obs and obs[-1][0].startswith("EXC"):
                     why = "internal error %s" % obs[-1][0]
@@ -507,8 +514,8 @@ def run(ctx):
                     for o, ob in zip(inp, obs):
                         used = o[:len(o) - ob[4]]
                         got += b"".join(r[1] for r in used if r[0] == 'D')
-                    why = prop_rx(got, obs[-1][1], obs[-1][2])
-                key, thm = "client-rx", "C36.Props.client_rx_partition"
+                    why = prop_rx(got, obs[-1][1], b"")
+                key, thm = "client-rx", "C36.Props.client_rx_partition / client_rx_all_delivered"
             else:
                 if obs and obs[-1][0].startswith("EXC"):
                     why = "internal error %s" % obs[-1][0]
